@@ -371,6 +371,9 @@ func hdrOp(s hdrSpec) string {
 }
 
 func gen(r *vu.Rng, i int) []string {
+	if r.Chance(1, 6) {
+		return genCtl(r)
+	}
 	switch x := r.Intn(1000); {
 	case x < 520:
 		return []string{msgOp(genMsgSpec(r))}
